@@ -108,6 +108,49 @@ _REPO_MODULES = {'tbrmmscore', 'tbrmmdiagnostics', 'tbrmmdesign', 'tbrmmdata', '
 _BUILTIN_ROOTS |= {n_ for n_ in dir(_builtins) if not n_.startswith('_')}
 
 
+_MODULE_ROOTS = {'np', 'numpy', 'pd', 'pandas', 'sp', 'scipy', 'stats', 'math', 'copy', 'sm', 'op', 'operator', 'itertools', 'functools', 'collections', 'heapq',
+                 'dataclasses', 'random', 're', 'warnings', 'typing', 'scipy_special', 'special'} | _REPO_MODULES
+
+
+def op_key(attr):
+  """Key of the library operation an Attribute node denotes: 'np.std' for a module-rooted dotted name, '.std' for an
+  attribute or method of any other receiver; None for a direct field of `self`/`cls` (a quantity, not an operation)."""
+  d = []
+  x = attr
+  while isinstance(x, ast.Attribute):
+    d.append(x.attr)
+    x = x.value
+  if isinstance(x, ast.Name) and x.id in _MODULE_ROOTS:
+    return '.'.join([x.id] + d[::-1])
+  if isinstance(attr.value, ast.Name) and attr.value.id in ('self', 'cls'):
+    return None
+  return '.' + attr.attr
+
+
+def unknown_ops(expr):
+  """Library operations used by `expr` that do not occur in the pristine package (mmsa/opvocab.py)."""
+  from mmsa import opvocab
+  out = []
+  inner = set()
+  for sub in ast.walk(expr):
+    if isinstance(sub, ast.Attribute) and isinstance(sub.ctx, ast.Load) and id(sub) not in inner:
+      k = op_key(sub)
+      if k is not None and not k.startswith('.'):
+        # module-rooted chain: its inner links (np.random in np.random.normal) are not operations of their own
+        x = sub.value
+        while isinstance(x, ast.Attribute):
+          inner.add(id(x))
+          x = x.value
+      if k is not None and k not in opvocab.OPS and k not in out and k.lstrip('.') not in REPO_DEFINED:
+        out.append(k)
+  return out
+
+
+# names of the functions, methods and classes defined in the tree under analysis (set by core.Repo): an attribute of
+# that name is code of the package, not a library operation
+REPO_DEFINED = set()
+
+
 def aliens(expr, vocabulary=(), fields=None):
   """Root names read by `expr` that are neither in `vocabulary` nor well-known module/builtin roots, and are not bound
   inside the expression (comprehension variables, lambda parameters).  An expression without aliens is a *closed term*
@@ -130,6 +173,11 @@ def aliens(expr, vocabulary=(), fields=None):
     if fields is not None and isinstance(sub, ast.Attribute) and isinstance(sub.value, ast.Name) and sub.value.id == 'self' and sub.attr not in fields \
         and ('self.' + sub.attr) not in out:
       out.append('self.' + sub.attr)
+  # operations the checker has never been validated against (x.size for len(x), x.std(ddof=2) for np.std(x, ddof=2), ...):
+  # the term may well be an equivalent spelling, so it is not a closed term
+  for k in unknown_ops(expr):
+    if k not in out and k.lstrip('.') not in vocabulary:
+      out.append(k)
   return out
 
 
